@@ -171,7 +171,8 @@ func H06_attest() {
 	pool := x509.NewCertPool()
 	a := NewAttestorWithCAPool(pool)
 	devKey := &rsa.PublicKey{N: new(big.Int), E: 65537}
-	f9 := &x509.Certificate{PublicKey: devKey, RawTBSCertificate: []byte("f9-tbs"), Signature: []byte("f9-sig"), SignatureAlgorithm: x509.SHA256WithRSA}
+	// the device certificate itself is signed with another algorithm than the slot certificate
+	f9 := &x509.Certificate{PublicKey: devKey, RawTBSCertificate: []byte("f9-tbs"), Signature: []byte("f9-sig"), SignatureAlgorithm: x509.SHA512WithRSA}
 	tbs := vNondetBytes("slot-tbs", 2)
 	sig := vNondetBytes("slot-sig", 2)
 	slot := &x509.Certificate{PublicKey: &rsa.PublicKey{N: new(big.Int), E: 3}, RawTBSCertificate: tbs, Signature: sig, SignatureAlgorithm: x509.SHA256WithRSA,
